@@ -4,7 +4,7 @@ the MIR; pulp::Simd is the environment (lane-wise semantics)."""
 import time, os, re, multiprocessing as mp
 import z3
 from ..vm import VM, Machine, Struct, Seq, Ref, SliceRef, Opaque, UNIT
-from ..alg import RealAlg, AbsAlg, ConcAlg, Fl
+from ..alg import RealAlg, AbsAlg, ConcAlg, FP64Alg, Fl
 from ..layout import Layouts
 from ..iters import install_simd
 from ..driver import load_mir, REPO, dump_mir
@@ -235,8 +235,8 @@ def cpumath_meaning(rep, mir):
     bad = []; nq = 0; t0 = time.time()
     for name, kinds in methods.items():
         for n in (0, 1, 3, 9):
-            for pol in ('R',):
-                A = RealAlg()
+            for pol in (('R', 'FP64') if name.startswith('array_all_finite') else ('R',)):
+                A = RealAlg() if pol == 'R' else FP64Alg()
                 # real code
                 vm = VM(mir, A, inst={}); cpuenv.install(vm, 2)
                 try: fn = mir.method('CpuMath', 'Math', name)
@@ -283,4 +283,4 @@ def cpumath_meaning(rep, mir):
                         elif r == z3.unknown: rep.unknown('C17.B %s n=%d' % (name, n), 'solver unknown')
     rep.paths += nq
     if bad: rep.violated('C17.B CpuMath methods compute the assumed algebraic meaning', 'cpumath.meaning', 'CpuMath method differs from the formula the other checks assume: %s' % (bad[0],), model={'problems': [str(b)[:300] for b in bad[:6]]})
-    else: rep.holds('C17.B all %d CpuMath Math methods (dispatch layer, faer zip helpers, variance update) equal the algebraic meaning assumed by the Math environment, n in {0,1,3,9}, lanes 2 (%d comparisons)' % (len(methods), nq), time.time() - t0)
+    else: rep.holds('C17.B all %d CpuMath Math methods (dispatch layer, faer zip helpers, variance update) equal the algebraic meaning assumed by the Math environment, n in {0,1,3,9}, lanes 2; the finiteness predicates also bit-precisely in FP64 (NaN, inf, zeros, subnormals) (%d comparisons)' % (len(methods), nq), time.time() - t0)
